@@ -1541,7 +1541,93 @@ func hasOnPathSet(p *Program, comp []*ssa.Function) (bool, string) {
 		names = append(names, p.FnName(f))
 	}
 	sort.Strings(names)
-	return true, strings.Join(names, ", ") + " keep the set of host values on the current path (tested first, inserted before recursing, removed by a deferred delete): a value that contains itself is followed once; every cycle of the component passes one of them"
+	// the set stops a value that contains itself, not one that is merely deep:
+	// its size — the number of containers on the way to the member at hand —
+	// has to be held against a constant too, with the far side returning
+	// without recursing
+	for f := range guarded {
+		if !pathSizeBounded(f, in, 0) {
+			lastOnPathNote = p.FnName(f) + " keeps the containers on the current path in a set, which stops a value that contains itself — but nothing limits the size of that set, that is the depth of an acyclic value: a host object nested a few million slices deep still overflows the Go stack"
+			return false, ""
+		}
+	}
+	return true, strings.Join(names, ", ") + " keep the set of host values on the current path (tested first, inserted before recursing, removed by a deferred delete), and its size is held against a constant: a value that contains itself is followed once, a deep one to that depth; every cycle of the component passes one of them"
+}
+
+// lastOnPathNote: why the last on-path set examined does not bound the recursion.
+var lastOnPathNote string
+
+// pathSizeBounded: f (or a function of the module it calls) compares the
+// length of a map or slice kept in a field with a constant, and one side of
+// that comparison returns without calling back into the component.
+func pathSizeBounded(f *ssa.Function, in map[*ssa.Function]bool, depth int) bool {
+	for _, b := range f.Blocks {
+		iff, ok := terminator(b).(*ssa.If)
+		if !ok {
+			continue
+		}
+		bo, ok := iff.Cond.(*ssa.BinOp)
+		if !ok || (bo.Op != token.GEQ && bo.Op != token.GTR && bo.Op != token.LSS && bo.Op != token.LEQ) {
+			continue
+		}
+		isLenOfField := func(v ssa.Value) bool {
+			c, ok := v.(*ssa.Call)
+			if !ok {
+				return false
+			}
+			if _, isLen := isBuiltinCall(c, "len"); !isLen {
+				return false
+			}
+			arg := c.Call.Args[0]
+			for i := 0; i < 3; i++ {
+				if ld, ok := arg.(*ssa.UnOp); ok {
+					if fieldKey(ld.X) != "" {
+						return true
+					}
+					arg = ld.X
+					continue
+				}
+				break
+			}
+			// a method of the path type applied to the field: len(*p)
+			if prm, ok := arg.(*ssa.Parameter); ok && len(f.Params) > 0 && prm == f.Params[0] {
+				return true
+			}
+			return false
+		}
+		_, cy := bo.Y.(*ssa.Const)
+		_, cx := bo.X.(*ssa.Const)
+		if !(cy && isLenOfField(bo.X) || cx && isLenOfField(bo.Y)) {
+			continue
+		}
+		for _, sc := range b.Succs {
+			if _, isRet := terminator(sc).(*ssa.Return); !isRet {
+				continue
+			}
+			rec := false
+			for _, ins := range sc.Instrs {
+				if cc := callOf(ins); cc != nil && cc.StaticCallee() != nil && in[cc.StaticCallee()] {
+					rec = true
+				}
+			}
+			if !rec {
+				return true
+			}
+		}
+	}
+	if depth >= 2 {
+		return false
+	}
+	for _, b := range f.Blocks {
+		for _, ins := range b.Instrs {
+			if cc := callOf(ins); cc != nil && cc.StaticCallee() != nil && !in[cc.StaticCallee()] && len(cc.StaticCallee().Blocks) > 0 && fnPkg(cc.StaticCallee()) != nil && IsLibPath(fnPkg(cc.StaticCallee()).Pkg.Path()) {
+				if pathSizeBounded(cc.StaticCallee(), in, depth+1) {
+					return true
+				}
+			}
+		}
+	}
+	return false
 }
 
 func ruleRecursion(p *Program, r *Reporter) {
@@ -1549,7 +1635,15 @@ func ruleRecursion(p *Program, r *Reporter) {
 	if a == nil {
 		return
 	}
-	reach := p.Reachable(a.prepare, a.execute, a.run, a.dump)
+	roots := []*ssa.Function{a.prepare, a.execute, a.run, a.dump}
+	// the command-line driver is a front end of the same library: what it does
+	// with a result (show it as JSON) must not kill the process either
+	for _, fn := range p.Fns {
+		if fnPkg(fn) != nil && strings.HasPrefix(fnPkg(fn).Pkg.Path(), Mod+"/cmd") && fn.Parent() == nil {
+			roots = append(roots, fn)
+		}
+	}
+	reach := p.Reachable(roots...)
 	for _, comp := range librarySCCs(p) {
 		reachable := false
 		for _, f := range comp {
@@ -1612,6 +1706,11 @@ func ruleRecursion(p *Program, r *Reporter) {
 		}
 		if structuralTreeWalk(comp) {
 			r.OkNT(key, p.Pos(comp[0].Pos()), "structural recursion over a syntax tree: every recursive call descends into a field of the node it was given, so the depth is at most the depth of the tree, which only the parser builds (its own unguarded recursion is reported separately; these frames are smaller than the parser's)")
+			continue
+		}
+		if lastOnPathNote != "" && strings.Contains(key, "reflection") {
+			r.Fail(key, p.Pos(comp[0].Pos()), lastOnPathNote+" (fatal for the host process; members: "+strings.Join(names, ", ")+")")
+			lastOnPathNote = ""
 			continue
 		}
 		r.Fail(key, p.Pos(comp[0].Pos()), "this recursive component is reachable from the API and has no depth guard: input that nests deeply enough overflows the Go stack, which is fatal for the host process and cannot be recovered (members: "+strings.Join(names, ", ")+")")
